@@ -8,18 +8,18 @@ CONSTANTS
   EngTargets <- AllT
   EngSensors <- AllS
   Policy <- PolGreedy
-  NSteps = 3
-  Dt = 3
+  NSteps = 6
+  Dt = 2
   OutDt = 3
-  Events <- Imp3
+  Events <- NoEvents
   WithEstimation = TRUE
   WithSerendipity = FALSE
-  WithFaults = FALSE
+  WithFaults = TRUE
   ResetChangesPerJob = FALSE
   MissListSquared = FALSE
   KeepMissedAcrossSteps = FALSE
   PriorityToAllEngines = FALSE
-  PruneKeepsEqual = TRUE
+  PruneKeepsEqual = FALSE
   PartialCommit = FALSE
 INVARIANT OneRecordPerTasking
 INVARIANT NoRecordWithoutTasking
